@@ -90,6 +90,9 @@ Qed.
 Lemma skipn_nth_cons {A} (l : list A) k d : (k < length l)%nat -> skipn k l = nth k l d :: skipn (S k) l.
 Proof. revert k. induction l; intros k H; cbn in *. lia. destruct k. reflexivity. cbn. apply IHl. lia. Qed.
 
+Lemma length_mread (m : mem) p k : length (mread m p k) = k.
+Proof. revert p. induction k; intro p; cbn; auto. Qed.
+
 Lemma slice_self x n : zlen x = n -> slice x 0 n = x.
 Proof.
   intro H. unfold slice. subst n. destruct (Z.leb_spec (zlen x) 0).
@@ -156,10 +159,13 @@ Proof.
 Qed.
 Lemma mloadw_range A w : mloadw img A = Some w -> 0 <= w < W256 /\ A + 32 <= MEMLIM.
 Proof.
-  unfold mloadw, mloadb. destruct (Z.leb_spec (A + 32) MEMLIM); [|discriminate]. cbn [obind]. intro Hq. injection Hq as <-.
-  split; [|lia]. pose proof (fold_unbe_bounds (mread img A 32) (mread_bytes_ok A 32) 0 ltac:(lia)) as B.
-  unfold unbe. replace (zlen (mread img A 32)) with 32 in B by (unfold zlen; now rewrite length_mread).
-  change (256 ^ 32) with W256 in B. lia.
+  unfold mloadw, mloadb. destruct (Z.leb_spec (A + 32) MEMLIM); [|discriminate]. cbn [obind].
+  pose proof (mread_bytes_ok A 32) as Hbk.
+  assert (Hlen : zlen (mread img A 32) = 32) by (unfold zlen; now rewrite length_mread).
+  remember (mread img A 32) as raw eqn:Eraw. clear Eraw.
+  intro Hq. assert (Hw : w = unbe raw) by congruence. subst w.
+  split; [|lia]. pose proof (fold_unbe_bounds raw Hbk 0 ltac:(lia)) as B.
+  unfold unbe. rewrite Hlen in B. change (256 ^ 32) with W256 in B. lia.
 Qed.
 Lemma mloadw_oog A : MEMLIM < A + 32 -> mloadw img A = None.
 Proof. intro. unfold mloadw, mloadb. replace (A + 32 <=? MEMLIM) with false by lia. reflexivity. Qed.
@@ -181,7 +187,7 @@ Proof.
   assert (0 <= zsum (map emb_static ts)).
   { apply zsum_nonneg. apply Forall_forall. intros x Hx. apply in_map_iff in Hx as (y & <- & Hy).
     apply emb_static_nonneg. rewrite forallb_forall in Hwl. auto. }
-  destruct (is_dynamic t) eqn:E. unfold emb_static. rewrite E. lia.
+  destruct (is_dynamic t) eqn:E. unfold emb_static at 1. rewrite E. lia.
   cbn [orb] in Hd. specialize (IH Hwl Hd). lia.
 Qed.
 
@@ -242,7 +248,7 @@ Proof. intros. unfold wadd. apply Z.mod_small. lia. Qed.
 
 Lemma iseq_cseq chk ts : Forall RR ts -> forallb wf_ty ts = true -> forallb small_ty ts = true ->
   forall bp ho S, 0 <= bp -> 0 <= ho -> ho + zsum (map emb_static ts) <= S -> bp + S <= L ->
-    iseq I img hi chk (map (fun t' => (is_dynamic t', emb_static t', idec I img hi t')) ts) (M + bp) ho =
+    iseq img hi chk (map (fun t' => (is_dynamic t', emb_static t', idec I img hi t')) ts) (M + bp) ho =
     cseq ts payload bp L ho.
 Proof.
   pose proof W256_big as HW. pose proof MEMLIM_val as HMv.
@@ -352,9 +358,10 @@ Proof.
     rewrite (wadd_small (M + p) ss) by lia.
     destruct (Z.leb_spec (p + ss) L) as [Hc|Hc].
     + replace (M + p + ss <=? hi) with true by (unfold hi; lia). cbn [guard obind].
-      change (repeat (is_dynamic t, emb_static t, idec I img hi t) (Z.to_nat n))
-        with (repeat ((fun t' => (is_dynamic t', emb_static t', idec I img hi t')) t) (Z.to_nat n)).
-      rewrite (map_repeat' (fun t' => (is_dynamic t', emb_static t', idec I img hi t'))).
+      match goal with |- context [iseq img hi false ?l (M + p) 0] =>
+        assert (E : l = map (fun t' => (is_dynamic t', emb_static t', idec I img hi t')) (repeat t (Z.to_nat n)))
+          by (generalize (Z.to_nat n); intro k; induction k; cbn [repeat map]; congruence);
+        rewrite E; clear E end.
       rewrite (iseq_cseq false (repeat t (Z.to_nat n)) (Forall_RR_repeat t _ IHt)
                          (forallb_repeat wf_ty t _ Hw) (forallb_repeat small_ty t _ Hsmt) p 0 ss); try lia.
       * destruct (cseq (repeat t (Z.to_nat n)) payload p L 0); reflexivity.
@@ -374,16 +381,15 @@ Proof.
         rewrite (wadd_small (M + p) 32) by lia.
         destruct (Z.leb_spec (p + 32 + n * es) L) as [Hc|Hc].
         -- replace (M + p + (n * es + 32) <=? hi) with true by (unfold hi; lia).
-           assert (Hiseq : iseq I img hi (elem_chk I) (repeat (is_dynamic t, es, idec I img hi t) (Z.to_nat n)) (M + p + 32) 0
-                           = cseq (repeat t (Z.to_nat n)) payload (p + 32) L 0).
-           { change (repeat (is_dynamic t, es, idec I img hi t) (Z.to_nat n))
-               with (repeat ((fun t' => (is_dynamic t', emb_static t', idec I img hi t')) t) (Z.to_nat n)).
-             rewrite (map_repeat' (fun t' => (is_dynamic t', emb_static t', idec I img hi t'))).
-             replace (M + p + 32) with (M + (p + 32)) by lia.
+           assert (Hiseq : forall l, l = map (fun t' => (is_dynamic t', emb_static t', idec I img hi t')) (repeat t (Z.to_nat n)) ->
+                           iseq img hi (elem_chk I) l (M + p + 32) 0 = cseq (repeat t (Z.to_nat n)) payload (p + 32) L 0).
+           { intros l ->. replace (M + p + 32) with (M + (p + 32)) by lia.
              apply (iseq_cseq (elem_chk I) (repeat t (Z.to_nat n)) (Forall_RR_repeat t _ IHt)
                               (forallb_repeat wf_ty t _ Hw) (forallb_repeat small_ty t _ Hsmt) (p + 32) 0 (n * es)); try lia.
              rewrite <- map_repeat', zsum_repeat. fold es. lia. }
-           destruct I; cbn [guard obind]; rewrite Hiseq;
+           match goal with |- context [iseq img hi (elem_chk I) ?l (M + p + 32) 0] =>
+             rewrite (Hiseq l) by (unfold es; generalize (Z.to_nat n); intro k; induction k; cbn [repeat map]; congruence) end.
+           destruct I; cbn [guard obind];
              destruct (cseq (repeat t (Z.to_nat n)) payload (p + 32) L 0); reflexivity.
         -- replace (M + p + (n * es + 32) <=? hi) with false by (unfold hi; lia). destruct I; reflexivity.
       * destruct I; cbn [guard obind]; [|reflexivity].
